@@ -2,12 +2,15 @@
 
 M: TLC checks Ensemble.tla (constructors, append/extend, collective transformations in integer arithmetic,
    one matrix / vector per conformer, writes through conformers, a copy-constructed ensemble next to its still
-   living source, independent iterators, dump / store) for Rectangular, WriteThrough, SourceUntouched,
-   CopyUntouched, StackIsRowwise, EachOnceInOrder, TransformsOnlyCoords, DumpableAndStorable ...; ten named
-   deviations must each be caught.
-A: every (state, action) pair of bounded slices of the model (grow, iterate, view+transform, copy+source, io) is
+   living source, independent iterators whose yielded conformers are kept by the caller (also list(ens)), dump /
+   store) for Rectangular, WriteThrough, SourceUntouched, CopyUntouched, StackIsRowwise, EachOnceInOrder,
+   YieldedViewsStay, HeldWriteThrough, TransformsOnlyCoords, DumpableAndStorable ...; eleven named deviations
+   must each be caught.
+A: every (state, action) pair of bounded slices of the model (grow, iterate, kept yielded conformers,
+   view+transform, copy+source, io) is
    executed on real ConformerEnsemble / Conformer objects; after every call the public arrays, the arrays of
-   the source ensemble of the last copy construction, every row
+   the source ensemble of the last copy construction, every conformer ever yielded by a live iteration or
+   collected by list(ens) (re-read after the iterator advanced / ended, and written through), every row
    as read through ens[i] (held and fresh views), and the returned values (yielded conformer, re-parsed
    dump text, stored-and-reloaded ensemble) must equal the model's.
 B: seeded random histories (random ensembles and the bundled pentane ensemble) are executed on the real
@@ -34,13 +37,13 @@ KNOWN: dict = {}
 def known_for(sig):
     return next((k for k in KNOWN.values() if k["signature"] == sig), None)
 
-INV = ("TypeOK", "Rectangular", "EachOnceInOrder")
+INV = ("TypeOK", "Rectangular", "EachOnceInOrder", "YieldedViewsStay")
 PROPS = ("StopOnlyAtEnd", "YieldsTheRow", "WriteThrough", "TransformsOnlyCoords", "TranslateIsUniform", "GrowKeepsOld",
          "AppendAddsTheRow", "CopyIsFaithful", "FailedOpIsNoOp", "ReadsChangeNothing", "DumpableAndStorable",
-         "SingleTransformsSucceed", "StackIsRowwise", "SourceUntouched", "CopyUntouched")
+         "SingleTransformsSucceed", "StackIsRowwise", "SourceUntouched", "CopyUntouched", "HeldWriteThrough")
 ACTIONS = {
     "grow": ("NewAtoms", "NewMol", "NewList", "AppendC", "ExtendList", "ExtendEns", "ExtendOther"),
-    "iter": ("StartIter", "NextIt"),
+    "iter": ("StartIter", "NextIt", "Collect", "HeldWrite", "HeldWriteQ"),
     "view": ("VWriteC", "VWriteQ", "VSetAtom", "VTranslate", "SetW"),
     "xform": ("Scale", "Invert", "Translate", "Rotate", "CenterAt", "RotateStack", "TranslateStack"),
     "copy": ("NewCopy", "SrcWriteC", "SrcWriteQ", "SrcSetW", "SrcTranslate"),
@@ -49,6 +52,7 @@ ACTIONS = {
 }
 OPS = {"OpsAll": ("grow", "iter", "view", "xform", "dump", "io", "copy"), "OpsNoCopy": ("grow", "iter", "view", "xform", "dump", "io"), "OpsMix": ("grow", "iter", "view", "xform", "dump", "copy"), "OpsCopy": ("copy", "view", "xform"), "OpsCopyV": ("copy", "view"), "OpsCopyX": ("copy", "xform"), "OpsGrow": ("grow", "dump"), "OpsIter": ("iter", "dump"),
        "OpsView": ("view", "xform", "dump"), "OpsIO": ("grow", "io")}
+ITERS = {"It1": ("i1",), "It2": ("i1", "i2"), "It3": ("i1", "i2", "i3")}
 CUNIT = 250000          # one coordinate unit of MCEnsemble.tla in micro-Angstrom
 
 # deviation -> (slice it is checked in, clause documented to break)
@@ -63,6 +67,7 @@ DEVIATIONS = {
     "DevCopyW": ("OpsCopy", "CopyIsFaithful"),
     "DevShare": ("OpsCopy", "SourceUntouched"),
     "DevStack": ("OpsView", "Rectangular"),
+    "DevYield": ("OpsIter", "YieldedViewsStay"),
 }
 
 
@@ -78,12 +83,14 @@ def cfg(ops, pool="Pool2", it="It1", maxc=2, maxt=2, dev="DevNone", rots="Rots1"
         invariants=INV, properties=PROPS, view="View")
 
 
-def acts(ops):
+def acts(ops, maxt=1):
     out = ()
     for g in OPS[ops]:
         out += ACTIONS[g]
     if "grow" not in OPS[ops]:
         out += ("NewList",) + (("AppendC",) if "iter" in OPS[ops] else ())
+    if maxt == 0:
+        out = tuple(a for a in out if a not in ("HeldWrite", "HeldWriteQ"))
     return out
 
 
@@ -91,14 +98,16 @@ def slices(tier):
     """(name, cfg kwargs) of the graphs that are replayed on the real code"""
     if tier == "thorough":
         return [("grow", dict(ops="OpsGrow", pool="Pool3x", maxc=3)),
-                ("iter", dict(ops="OpsIter", pool="Pool3", it="It3", maxc=3)),
+                ("iter", dict(ops="OpsIter", pool="Pool3", it="It3", maxc=3, maxt=0)),
+                ("held", dict(ops="OpsIter", pool="Pool2", it="It2", maxc=3, maxt=1)),
                 ("view2", dict(ops="OpsView", pool="Pool2", maxc=2, maxt=2, rots="Rots2", vecs="Vecs2", facs="Facs2", ws="Ws2")),
                 ("view3", dict(ops="OpsView", pool="Pool2", maxc=3, maxt=2)),
                 ("view1", dict(ops="OpsView", pool="Pool2", maxc=1, maxt=3, rots="Rots2", vecs="Vecs2", facs="Facs2", ws="Ws2")),
                 ("copy", dict(ops="OpsCopy", pool="Pool2", maxc=2, maxt=2)),
                 ("io", dict(ops="OpsIO", pool="Pool2x", maxc=3))]
     return [("grow", dict(ops="OpsGrow", pool="Pool2x", maxc=3)),
-            ("iter", dict(ops="OpsIter", pool="Pool2", it="It2", maxc=3)),
+            ("iter", dict(ops="OpsIter", pool="Pool2", it="It2", maxc=3, maxt=0)),
+            ("held", dict(ops="OpsIter", pool="Pool2", it="It2", maxc=2, maxt=1)),
             ("view", dict(ops="OpsView", pool="Pool2", maxc=2, maxt=2)),
             ("copy", dict(ops="OpsCopy", pool="Pool2", maxc=1, maxt=2)),
             ("copyx", dict(ops="OpsCopyX", pool="Pool2", maxc=2, maxt=2)),
@@ -108,8 +117,8 @@ def slices(tier):
 def mixed(tier):
     """models with the action groups together (invariants only, not replayed)"""
     if tier == "thorough":
-        return [dict(ops="OpsMix", pool="Pool2", it="It1", maxc=2, maxt=2), dict(ops="OpsNoCopy", pool="Pool2", it="It2", maxc=2, maxt=2)]
-    return [dict(ops="OpsMix", pool="Pool2", it="It1", maxc=2, maxt=1)]
+        return [dict(ops="OpsMix", pool="Pool2", it="It1", maxc=2, maxt=2), dict(ops="OpsNoCopy", pool="Pool2", it="It2", maxc=2, maxt=1)]
+    return [dict(ops="OpsNoCopy", pool="Pool2x", it="It1", maxc=2, maxt=1)]      # the copy group has its own slice models
 
 
 # ----------------------------------------------------------------------------------------------
@@ -121,11 +130,11 @@ def part_model(tier, ev, workers):
                                               workers=workers, timeout=1500, require_actions=acts(mx["ops"])))
     for name, kw in slices(tier):
         jobs.append(lambda name=name, kw=kw: model_check(ev, "MCEnsemble", cfg(**kw), role=f"Ensemble slice {name} {kw}",
-                                                         tag="c14mc", workers=1, timeout=900, require_actions=acts(kw["ops"])))
+                                                         tag="c14mc", workers=1, timeout=900, require_actions=acts(kw["ops"], kw.get("maxt", 2))))
     for dev, (ops, clause) in DEVIATIONS.items():
         jobs.append(lambda dev=dev, ops=ops, clause=clause: (dev, clause, expect_violation(
             "MCEnsemble", cfg(ops, pool="Pool2", it="It2", maxc=2, dev=dev), (clause,), tag="c14dev", workers=1)))
-    with ThreadPoolExecutor(4) as ex:
+    with ThreadPoolExecutor(6) as ex:
         res = list(ex.map(lambda j: j(), jobs))
     caught = {}
     for r in res:
@@ -166,14 +175,14 @@ def part_replay(tier, seed, ev, rep, workers):
     free = probe_free()
     ev.set(free_behaviours_shown_by_the_code=list(free))
     sl = [(name, dict(kw, free=free)) for name, kw in slices(tier)]
-    with ThreadPoolExecutor(4) as ex:
+    with ThreadPoolExecutor(6) as ex:
         graphs = list(ex.map(lambda s: emit_graph(ev, "MCEnsemble", cfg(**s[1]), role=f"edges of slice {s[0]}", tag="c14emit",
                                                   timeout=1500), sl))
     for (name, kw), edges in zip(sl, graphs):
         g = replay.Graph(edges)
         del edges
         t0 = time.time()
-        stats, viol, _, _, samples = replay.cover(g, lambda: EnsembleAdapter(CUNIT, seed), seed=seed, max_path=60,
+        stats, viol, _, _, samples = replay.cover(g, lambda: EnsembleAdapter(CUNIT, seed, ITERS[kw.get("it", "It1")]), seed=seed, max_path=60,
                                                   budget_s=120 if tier == "quick" else 900, stop_after=3)
         stats["wall_s"] = round(time.time() - t0, 1)
         ev.count(evaluations=stats["steps"], distinct_nontrivial=stats["pairs_exercised"], traces=stats["paths"])
@@ -184,7 +193,7 @@ def part_replay(tier, seed, ev, rep, workers):
             if k:
                 rep.known(k["id"], k["what"])
                 continue
-            rep.violation("replay-ensemble", {**v, "slice": name, "seed": seed},
+            rep.violation("replay-ensemble", {**v, "slice": name, "seed": seed, "iters": list(ITERS[kw.get("it", "It1")])},
                           what=f"slice {name}: {json.dumps(v['action'])[:160]}: " + "; ".join(v["differences"][:3]))
         if stats["unreached_pairs"] and not viol:
             rep.note(f"A/{name}: {stats['unreached_pairs']} pairs of the graph were not reached by the code")
@@ -216,7 +225,7 @@ def record(h, base):
 
 TRACE_CFG = dict(spec="TraceSpec", constants={
     "Free": "<- FreeAll", "Iter": "<- Iters3", "MaxConf": 1000, "MaxT": 1000000, "Ops": "<- OpsAll", "MolPool": "<- NoPool", "VecPool": "<- NoSet",
-    "RotPool": "<- NoSet", "FacPool": "<- NoSet", "WPool": "<- NoSet", "Deviations": "<- DevNone"}, invariants=("Rectangular", "EachOnceInOrder"))
+    "RotPool": "<- NoSet", "FacPool": "<- NoSet", "WPool": "<- NoSet", "Deviations": "<- DevNone"}, invariants=("Rectangular", "EachOnceInOrder", "YieldedViewsStay"))
 
 
 def part_traces(tier, seed, ev, rep):
@@ -225,7 +234,7 @@ def part_traces(tier, seed, ev, rep):
     t0 = time.time()
     traces = [record(h, base) for h in hs]
     t_run = time.time() - t0
-    verdicts, results = T.validate("EnsembleTrace", traces, TRACE_CFG, chunk=60 if tier == "quick" else 150, par=4, tag="c14tr",
+    verdicts, results = T.validate("EnsembleTrace", traces, TRACE_CFG, chunk=90 if tier == "quick" else 150, par=4, tag="c14tr",
                                    timeout=1500)
     ev.cov["tlc_runs"].append({"role": "EnsembleTrace validation", "batches": len(results),
                                "generated": sum(r.generated for r in results), "wall_s": round(sum(r.wall_s for r in results), 1)})
@@ -280,7 +289,8 @@ def run(tier, seed, replay_path):
         "and larger ensembles only sampled (direction B)",
         "left free: charge row of an appended geometry (own or zero), weights of rows taken from another ensemble (its or 1), "
         "extend([]) may raise, an ensemble without atoms may refuse or adopt its first conformer, exception classes",
-        "iterators and held conformers are not used across a change of the number of conformers",
+        "iterators and held conformers are not used across a change of the number of conformers; conformers yielded by an "
+        "iteration are kept and re-read until that iterator is restarted or the number of conformers changes",
         "only the source of the LAST copy construction is kept and observed; a stack of exactly one matrix / vector applied to "
         "several conformers (numpy broadcasting of a single transformation) is not generated",
         "rotations are signed permutation matrices, scale factors integers (exact integer arithmetic in the specification); "
@@ -293,7 +303,7 @@ def run(tier, seed, replay_path):
 def do_replay(path):
     doc = json.loads(open(path).read())
     if doc["kind"] == "replay-ensemble":
-        ad = EnsembleAdapter(CUNIT, doc.get("seed", 0))
+        ad = EnsembleAdapter(CUNIT, doc.get("seed", 0), tuple(doc.get("iters", ("i1",))))
         try:
             res = replay.run_path(ad, doc["path"])
         finally:
@@ -309,7 +319,7 @@ def do_replay(path):
         return 1
     if doc["kind"] == "trace-ensemble":
         h = doc["history"]
-        ad = EnsembleAdapter(1, h["seed"])                 # the recorded calls are made again, in the recorded order
+        ad = EnsembleAdapter(1, h["seed"], ITERS["It3"])                 # the recorded calls are made again, in the recorded order
         evs = []
         for e in doc["trace"]:
             act = {k: v for k, v in e["a"].items() if k not in ("out", "val")}
